@@ -8,6 +8,7 @@ import Smpl.Drv.Filter
 import Smpl.Drv.Alloc
 import Smpl.Drv.Stream
 import Smpl.Drv.Transcode
+import Smpl.Drv.Wav
 open Smpl.Drv
 
 def dispatch (line : String) : String :=
@@ -17,6 +18,7 @@ def dispatch (line : String) : String :=
   | "fat" :: rest => allocOp rest
   | "stream" :: rest => streamOp rest
   | "trans" :: rest => transOp rest
+  | "wav" :: rest => wavOp rest
   | _ => "bad-op"
 
 partial def loop (hin hout : IO.FS.Stream) : IO Unit := do
